@@ -179,9 +179,10 @@ class FakeSnowflakeCursor:
                 if own_transaction:
                     self._duck_conn.execute("BEGIN")
                 try:
-                    self._execute(transformed, params)
+                    statement = expression if len(exploded) > 1 else None
+                    self._execute(transformed, params, statement)
                     for exp in exploded[1:]:
-                        self._execute(self._transform(exp), params)
+                        self._execute(self._transform(exp), params, statement)
                     if own_transaction:
                         self._duck_conn.execute("COMMIT")
                 except Exception:
@@ -283,14 +284,25 @@ class FakeSnowflakeCursor:
         # Split transforms have limited support at the moment.
         return transforms.merge(expression)
 
-    def _execute(self, transformed: exp.Expression, params: Sequence[Any] | dict[Any, Any] | None = None) -> None:
+    def _execute(
+        self,
+        transformed: exp.Expression,
+        params: Sequence[Any] | dict[Any, Any] | None = None,
+        statement: exp.Expression | None = None,
+    ) -> None:
+        """Execute a transformed expression.
+
+        statement is the user's statement when transformed is one of the statements it was exploded into: the
+        session needs a current database/schema for the names the user wrote, not for fakesnow's helper table.
+        """
         self._arrow_table = None
         self._arrow_table_fetch_index = None
         self._rowcount = None
 
         cmd = expr.key_command(transformed)
 
-        no_database, no_schema = checks.is_unqualified_table_expression(transformed)
+        no_database, no_schema = checks.is_unqualified_table_expression(statement or transformed)
+        checked_cmd = expr.key_command(statement) if statement else cmd
 
         table_exists_sql = None
         commented = transformed.args.get("table_comment")
@@ -303,13 +315,13 @@ class FakeSnowflakeCursor:
 
         if no_database and not self._conn.database_set:
             raise snowflake.connector.errors.ProgrammingError(
-                msg=f"Cannot perform {cmd}. This session does not have a current database. Call 'USE DATABASE', or use a qualified name.",  # noqa: E501
+                msg=f"Cannot perform {checked_cmd}. This session does not have a current database. Call 'USE DATABASE', or use a qualified name.",  # noqa: E501
                 errno=90105,
                 sqlstate="22000",
             )
         elif no_schema and not self._conn.schema_set:
             raise snowflake.connector.errors.ProgrammingError(
-                msg=f"Cannot perform {cmd}. This session does not have a current schema. Call 'USE SCHEMA', or use a qualified name.",  # noqa: E501
+                msg=f"Cannot perform {checked_cmd}. This session does not have a current schema. Call 'USE SCHEMA', or use a qualified name.",  # noqa: E501
                 errno=90106,
                 sqlstate="22000",
             )
